@@ -337,4 +337,44 @@ theorem sealTrace_syncedBeforeRename (c : Cfg) (f : Facts) (p : Plan) (oi os : L
   · cases hr1 : r.1 <;> by_cases hc : r.2.calls = 0 <;> cases hl : r.2.lost <;> cases keep <;>
       simp [syncedBeforeRename, indexOps, releaseOps, hc, hl, hr1]
 
+/-! ## a seal without faults runs to its end -/
+
+theorem call_nofault (w : W) (h : w.oracle = []) : w.call.1 = true ∧ w.call.2.oracle = [] := by
+  unfold W.call; simp [h]
+
+theorem run_nofault (n : Nat) (w : W) (h : w.oracle = []) : (w.run n).1 = true ∧ (w.run n).2.oracle = [] := by
+  induction n generalizing w with
+  | zero => exact ⟨rfl, h⟩
+  | succ n ih =>
+    unfold W.run
+    rw [if_pos (call_nofault w h).1]
+    exact ih _ (call_nofault w h).2
+
+theorem gen_nofault (b : Bool) (n : Nat) (w : W) (h : w.oracle = []) : (W.gen b n w).1 = true ∧ (W.gen b n w).2.oracle = [] := by
+  unfold W.gen
+  rw [if_pos (run_nofault n w h).1]
+  exact run_nofault n w h
+
+theorem andThen_nofault {a b : W → Bool × W} (ha : ∀ w, w.oracle = [] → (a w).1 = true ∧ (a w).2.oracle = [])
+    (hb : ∀ w, w.oracle = [] → (b w).1 = true ∧ (b w).2.oracle = []) (w : W) (h : w.oracle = []) :
+    (andThen a b w).1 = true ∧ (andThen a b w).2.oracle = [] := by
+  unfold andThen
+  rw [if_pos (ha w h).1]
+  exact hb _ (ha w h).2
+
+theorem writeIndex_nofault (f : Facts) (p : Plan) : (writeIndex f p { oracle := [] }).1 = true := by
+  have r := fun n => run_nofault n
+  have g := fun b n => gen_nofault b n
+  unfold writeIndex
+  exact (andThen_nofault (r 2) (andThen_nofault (g _ _) (andThen_nofault (r _) (andThen_nofault (g _ _)
+    (andThen_nofault (r _) (andThen_nofault (r 2) (andThen_nofault (g _ _) (andThen_nofault (g _ _) (r 4)))))))) _ rfl).1
+
+/-- creating the temporary files never fails (`os.Create` = create or truncate, whatever is lying around), so with
+no failing write the seal succeeds - from any start state -/
+theorem sealTrace_nofault (c : Cfg) (f : Facts) (p : Plan) : (sealTrace c f p [] []).1 = true := by
+  rw [sealTrace_ok, writeIndex_nofault, Bool.and_true]
+  cases c.skipSortDocs
+  · simp [(sortedDocsOps_ok_iff p.sdocs []).mpr (by simp)]
+  · rfl
+
 end SV.SealOps
